@@ -102,7 +102,7 @@ def run(ctx):
                 ctx.ok("C09a-no-enumeration", f,
                        f"accepted enumeration {ast.unparse(call)[:60]}",
                        ENUM_ALLOWED[q])
-    ctx.floor("C09a-enumeration-scanner", total_enum, 4)
+    ctx.floor("C09a-enumeration-scanner", total_enum, 2)
     ctx.ok("C09a-no-enumeration", "mokapot.confidence.assign_confidence",
            f"no directory enumeration among {len(reach_conf)} functions "
            "reachable from assign_confidence")
@@ -132,7 +132,7 @@ def run(ctx):
             elif q in reach_all:
                 ctx.ok("C09b-truncating-open", f,
                        f"open(..., {m!r}) of {ast.unparse(call.args[0])[:40]}")
-    ctx.floor("C09b-open-scanner", n_open, 8)
+    ctx.floor("C09b-open-scanner", n_open, 4)
     # positive control: the scanner must see the known append-mode opens
     ctx.control("append-mode opens visible to the scanner", n_append >= 1,
                 f"{n_append} append-mode open() sites package-wide")
@@ -382,7 +382,7 @@ def _check_writers(ctx, reach_all):
                           "; ".join(r["why"]) or
                           f"initialisation is conditional on {cond}",
                           node=g["events"][0][1])
-    ctx.floor("C09b-writer-groups", n_groups, 3)
+    ctx.floor("C09b-writer-groups", n_groups, 2)
     # result writers of assign_confidence: initialised unless the documented
     # append flag is set
     f = prog.func("mokapot.confidence.assign_confidence")
